@@ -429,6 +429,19 @@ _BUILDER_ASSUME = ["the UTxO environment of a scenario is valid ledger state: no
              "the bytes; distinct = (#inputs, #outputs, cert/withdrawal/mint/donation/collateral presence, fee width)")
 def check_C05(ctx):
     ctx.assumptions += _BUILDER_ASSUME
+    if not ctx.replay:
+        # the accounting core of the L1 model for ALL natural amounts (Apalache, inductive invariant); under --selftest a seeded slip
+        # of the balancing step must be refuted
+        ok, res = vlib.apalache_inductive("TxBalanceInd", os.path.join(ctx.work, "apalache"))
+        log("[C05] apalache TxBalanceInd: inductive invariant IndInv %s %s" % ("holds" if ok else "FAILS", res))
+        if not ok:
+            raise ToolError("apalache: IndInv of spec/apalache/TxBalanceInd.tla is not inductive - the committed model is inconsistent, not a verdict about the code")
+        ctx.extra["apalache_inductive_invariant"] = "TxBalanceInd.IndInv (Init => IndInv; IndInv /\\ Next => IndInv'), unbounded amounts"
+        if ctx.selftest:
+            bad, _ = vlib.apalache_inductive("TxBalanceIndBad", os.path.join(ctx.work, "apalache_bad"))
+            log("[C05] selftest apalache variant TxBalanceIndBad refuted = %s" % (not bad))
+            if bad:
+                ctx.selftest_ok = False
     builder_family(ctx, n_random=20000 if ctx.thorough else 1500, mc_sample=20000 if ctx.thorough else 1200, corrupt=_corrupt_env_coin)
 
 
